@@ -154,7 +154,7 @@ pub fn run(ctx: &Ctx) -> Report {
     let mut r = ctx.rng("c01");
     let n = ctx.count(2_000, 50_000);
     for k in 0..n {
-        let seed = r.next();
+        let seed = ctx.scenario_seed(r.next());
         let mut sr = Rng::new(seed);
         let sc = gen_scenario(&mut sr, seed);
         let t = sc.cfg.torrent.clone();
@@ -317,7 +317,7 @@ pub fn run_c11(ctx: &Ctx) -> Report {
     let mut r = ctx.rng("c11");
     let n = ctx.count(2_000, 50_000);
     for k in 0..n {
-        let seed = r.next();
+        let seed = ctx.scenario_seed(r.next());
         let mut sr = Rng::new(seed);
         let sc = gen_scenario_c11(&mut sr, seed);
         let t = sc.cfg.torrent.clone();
